@@ -44,6 +44,7 @@ Record obs := mkObs {
   ob_evs : list ev;                   (* persistence calls of the step, in order *)
   ob_cache : list (key * obj);        (* cache after the step, sorted by ID *)
   ob_store : list (key * rec);        (* store after the step, sorted by ID *)
+  ob_expired : list bool;             (* Expired() of each stored record, in that order *)
   ob_jar : cval;                      (* the client's cookie jar after the step *)
   ob_now : Z;                         (* clock after the step *)
   ob_drawn : N }.                     (* IDs generated so far *)
@@ -137,7 +138,8 @@ Definition count_draws (l : list ev) : N :=
 
 Definition mk_obs (res : rclass) (st0 : option (key * rec)) (cks : list cookie) (sr : list sres)
            (fin : option (key * rec)) (s : st) (jar : cval) : obs :=
-  mkObs res st0 cks sr fin (rev (evs s)) (cache_view s) (sort_by_key (store s)) jar (now s) (supply s).
+  mkObs res st0 cks sr fin (rev (evs s)) (cache_view s) (sort_by_key (store s))
+        (map (fun kr => expired (conf s) (snd kr) (now s)) (sort_by_key (store s))) jar (now s) (supply s).
 
 (* Everything in memory is lost; the store stays. *)
 Definition restart (s : st) : st := set_pending (set_cache s []) [].
